@@ -1,11 +1,11 @@
 SPECIFICATION Spec
 CONSTANTS
   Ecus = {"A", "B"}
-  MaxMsgs = 3
-  RxDeltas = {0, 1, 11, 61}
-  TsVals = {0, 1, 20, 70}
-  Kinds = {"norm", "ctrl"}
-  IdxDeltas = {1}
+  MaxMsgs = 5
+  RxDeltas = {0, 61}
+  TsVals = {0, 70}
+  Kinds = {"norm"}
+  IdxDeltas = {1, 100001}
   FixMerged = TRUE
 
 INVARIANTS EmitInv NoPanic C05 C05Safe C06 C07
